@@ -71,6 +71,7 @@ def main():
 
         i, n = [int(x) for x in args.shard.split('/')]
         harness.setup_paths()
+        harness.rotate_sampling(seed, i)
         mod = importlib.import_module('checks.' + prop.lower())
         res = harness.run_shard(mod, args.tier, seed, i, n, budget, only)
         with open(args.out + '.tmp', 'w') as f:
